@@ -9,6 +9,7 @@ import (
 	"encoding/json"
 	"fmt"
 	"math"
+	"strings"
 	"sync"
 
 	"github.com/EliCDavis/polyform/modeling"
@@ -21,6 +22,8 @@ import (
 )
 
 var raceLog *schedlib.RaceLog
+
+var mu sync.Mutex // guards the visit tables of the callbacks
 
 func init() { core.Register(core.Check{ID: "C10i", Run: run, Replay: replay}) }
 
@@ -55,6 +58,31 @@ func run(c *core.Ctx) {
 			}
 		}
 	}
+	for _, e := range reindexed {
+		for n := 1; n <= maxN; n++ {
+			if !c.Next() {
+				continue
+			}
+			for pool := 1; pool <= maxPool; pool++ {
+				oneReindexed(c, Case{e, n, pool})
+			}
+		}
+	}
+	workers := []int{2, 3, 4}
+	if c.Thorough() {
+		workers = []int{1, 2, 3, 4, 5, 8}
+	}
+	c.Bound("canvas_placements", fmt.Sprintf("box 2.6x2.2x1.8 at %d centres (x 2.5..8.5 step 0.3, y in %v, z in %v; block edge 6: block boundary at 6, last sample plane 5) x workers %v x %v", numPlacements(), sweepY, sweepZ, workers, canvasEntries))
+	for _, e := range canvasEntries {
+		for k := 0; k < numPlacements(); k++ {
+			if !c.Next() {
+				continue
+			}
+			for _, w := range workers {
+				oneCanvas(c, Case{e, k, w})
+			}
+		}
+	}
 }
 
 func data(n int) ([]vector3.Float64, []vector2.Float64, []float64) {
@@ -73,7 +101,6 @@ func data(n int) ([]vector3.Float64, []vector2.Float64, []float64) {
 // (primitives for the primitive scans, vertices for attribute scans).
 func one(c *core.Ctx, cs Case) {
 	n, pool := cs.N, cs.Pool
-	var mu sync.Mutex
 	visits := make([]int, n)
 	outOfRange, wrongValue := -1, -1
 	visit := func(i int, ok bool) {
@@ -250,5 +277,12 @@ func replay(c *core.Ctx) {
 		return
 	}
 	raceLog = schedlib.NewRaceLog()
-	one(c, cs)
+	switch {
+	case strings.HasPrefix(cs.Entry, "canvas/"):
+		oneCanvas(c, cs)
+	case strings.HasSuffix(cs.Entry, "-reindexed"):
+		oneReindexed(c, cs)
+	default:
+		one(c, cs)
+	}
 }
